@@ -70,6 +70,10 @@ def classify_m(mline, trace_lines):
                 props |= {"C16"}
             elif opname in ("q", "eq1", "entries"):
                 props |= {"C03"}
+            elif opname == "chain":
+                props |= {"C01"}
+                if "reads" in diff:
+                    props |= {"C03"}
             elif opname in ("parq",):
                 props |= {"C09"}
             elif opname in ("res",):
